@@ -228,6 +228,8 @@ def compare_step(case, op, impl_step, model_step, projection):
             same = True   # EList.__setitem__: known finding (no REMOVE, ADD_MANY for str values); state still compared
         if not same:
             diffs.append(f'notifications impl={il} model={ml}')
+        if op[0] == 'setitem' and not kgen.flat_features(case['mm'])[op[2]][1]['unique']:
+            ir = mr = []
         if op[0] in UNORDERED_LOG_OPS:
             ir = mr = []     # whether the notifier is still under the resource when notified depends on set order
         if ir != mr:
